@@ -412,6 +412,20 @@ func TestC15_Transient(t *testing.T) {
 		if which == "personal" {
 			broken, good = pp, c15PersonalCmds
 		}
+		// while the notebook is the broken file, the (so far good) main file may change at the same
+		// moment: other content, gone, or broken - a later attempt reads what is on disk THEN
+		mainThen := "same"
+		if which == "personal" {
+			mainThen = rapid.SampledFrom([]string{"same", "same", "rewritten", "rewritten", "missing", "broken"}).Draw(t, "main-then")
+		}
+		mainNow := c15MainCmds
+		var mainRewritten []database.Command
+		for i := len(c15MainCmds) - 1; i >= 0; i-- {
+			c := c15MainCmds[i]
+			c.Command = "v2 " + c.Command
+			mainRewritten = append(mainRewritten, c)
+		}
+		mainRewritten = append(mainRewritten, database.Command{Command: "v2 extra entry", Description: "added by the rewrite"})
 		var out c15Outcome
 		successAt := 0
 		recovery.VerifSetObserver(&recovery.VerifObserver{
@@ -430,6 +444,18 @@ func TestC15_Transient(t *testing.T) {
 						case "other-fault":
 							c15Materialise(dir, filepath.Base(broken), fault2, good)
 						}
+						switch mainThen {
+						case "rewritten":
+							os.WriteFile(mp, gen.EmitYAML(mainRewritten), 0o644)
+							mainNow = mainRewritten
+						case "missing":
+							os.Remove(mp)
+							mainNow = nil
+						case "broken":
+							os.Remove(mp)
+							c15Materialise(dir, "commands.yml", fault2, c15MainCmds)
+							mainNow = nil
+						}
 					}
 				}
 			},
@@ -445,7 +471,7 @@ func TestC15_Transient(t *testing.T) {
 		if !ended {
 			t.Fatalf("loading did not end within 60 s (%s file %s, config %+v)", which, fault, cfg)
 		}
-		where := fmt.Sprintf("%s file %s until attempt %d, then %s, config=%+v, attempts seen=%d", which, fault, k, then, cfg, out.Attempts)
+		where := fmt.Sprintf("%s file %s until attempt %d, then %s (main file: %s), config=%+v, attempts seen=%d", which, fault, k, then, mainThen, cfg, out.Attempts)
 		if then == "missing" && which == "personal" {
 			withPersonal = false // a notebook that is merely absent: the real database is the main entries alone
 		}
@@ -458,11 +484,17 @@ func TestC15_Transient(t *testing.T) {
 		if out.Attempts < 1 || out.Attempts > cfg.MaxAttempts {
 			t.Fatalf("%d attempts, configured maximum %d (%s)", out.Attempts, cfg.MaxAttempts, where)
 		}
-		if successAt == 0 && k < cfg.MaxAttempts && (then == "repair" || (then == "missing" && which == "personal")) {
+		if successAt > k && mainNow == nil {
+			t.Fatalf("attempt %d is reported as a success although the main file was %s after attempt %d: the result holds %d commands (%s)", successAt, mainThen, k, len(db.Commands), where)
+		}
+		if successAt == 0 && k < cfg.MaxAttempts && (mainThen == "same" || mainThen == "rewritten") && (then == "repair" || (then == "missing" && which == "personal")) {
 			t.Fatalf("before attempt %d every file was loadable (the %s file %s), yet no attempt succeeded; last error: %s (%s)", k+1, which, map[string]string{"repair": "had been repaired", "missing": "was merely absent"}[then], out.LastErr, where)
 		}
 		if successAt > 0 {
 			want := append([]database.Command{}, c15MainCmds...)
+			if successAt > k {
+				want = append([]database.Command{}, mainNow...) // read after the change: what the main file held then
+			}
 			if withPersonal {
 				want = append(want, c15PersonalCmds...)
 			}
@@ -491,7 +523,7 @@ func TestC15_Transient(t *testing.T) {
 		if successAt == 0 {
 			label = "transient-budget-exhausted"
 		}
-		rec.Case(true, map[string]any{"transient": which, "fault": fault, "changed_after_attempt": k, "then": then, "config": cfg, "attempts": out.Attempts, "success_at": successAt}, "transient", label, "then:"+then)
+		rec.Case(true, map[string]any{"transient": which, "fault": fault, "changed_after_attempt": k, "then": then, "config": cfg, "attempts": out.Attempts, "success_at": successAt, "main_then": mainThen}, "transient", label, "then:"+then, "main-then:"+mainThen)
 	})
 }
 
